@@ -25,7 +25,7 @@ from harness import healthrig as R
 
 THEOREM_MODULES = ['ExaModel.Props.C20']
 DRIVERS = ['drv_health']
-TABLES = ['health']
+TABLES = ['health', 'pyhealth']
 PROP = 'C20'
 ASSUMPTIONS = [
     'option VALUES are ones the daemon can express: metrics (+ k*increase), local preference and path id within 0..2^32-1, communities / as-path well formed with 2-byte AS numbers (4-byte AS numbers in as-path are finding F23 of C18), next hop of the family of the advertised ips',
